@@ -468,11 +468,12 @@ class C19(ShmProp):
     id = 'C19'
     structure = 'memstore'
     cases_per_plan = 600
-    quick_runs = 56
+    quick_runs = 84
+    quick_wall = 50
     rule = ('case = 2-4 worker tasks, each with its own real MemStore object attached to the one set of shared segments squid created for '
             '`memory_cache_shared on` (map, slice stack, extras, 4-12 pages of 32 KB), each owning private StoreEntry objects; operations: start a '
             'response for one of 1-3 keys (body 3-90 KB, so up to three pages), grow it chunk by chunk through MemStore::write() until '
-            'completeWriting(), abort it, MemStore::get() + byte comparison, updateAnchored() on a still-appending hit, evictIfFound(); three '
+            'completeWriting(), abort it, MemStore::get() + byte comparison, updateAnchored() on a still-appending hit, evictIfFound(), evictCached() through an entry the worker loaded (attached or detached); three '
             'scheduling policies, optional kid crash, 3 schedule seeds per case. non-trivial = at least one pre-emption; distinct = distinct case text')
     expected_probes = ['c19.responses_cached', 'c19.responses_not_cached', 'c19.get_hit', 'c19.get_miss', 'c19.complete_hits_verified',
                        'c19.partial_hits_verified', 'c19.update_anchored_ok', 'c19.evictions', 'c19.certain_evictions', 'c19.quiescent_checks',
@@ -520,9 +521,9 @@ class C19(ShmProp):
                     for _ in range(rng.randint(1, 6)):
                         ops.append(weighted(rng, [(12, 'w'), (1, 'x'), (1, 'G%d' % j)]))
                 elif r == 'r':
-                    ops.append(weighted(rng, [(5, 'G%d' % j), (3, 'g'), (3, 'd')] + ([(4, 'U')] if upd else [])))
+                    ops.append(weighted(rng, [(5, 'G%d' % j), (3, 'g'), (3, 'd'), (1, 'V')] + ([(4, 'U')] if upd else [])))
                 else:
-                    ops.append('E%d' % j)
+                    ops.append(weighted(rng, [(3, 'E%d' % j), (2, 'G%d' % j), (2, 'V')]))     # V: release through an entry this worker loaded (MemStore::evictCached)
             tasks.append(ops[:30])
         c = {'id': cid, 'params': {'keys': nk, 'sizes': ','.join(str(x) for x in sizes), 'chunk': chunk}, 'tasks': tasks}
         return self.common(rng, c, nt, 400)
